@@ -2,7 +2,7 @@
     Property theorems only. *)
 From Coq Require Import Reals List ZArith.
 From Interval Require Import Real.Xreal Interval.Interval Eval.Prog Eval.Tree Eval.Eval.
-From FeosVerif Require Import ProgSem ParamLookup Canon.
+From FeosVerif Require Import ProgSem ParamLookup Canon CanonDeriv AD.
 
 (** A sub-model extracted with [subset] and a model built directly from the same records with the
     same options whose regenerated programs are syntactically identical denote the same function:
@@ -50,3 +50,22 @@ Theorem C09_canonical_programs_agree_where_defined : forall A B zs piA piB oa ob
   out_ext A (sel 0%R piA env) oa = out_ext B (sel 0%R piB env) ob.
 Proof. exact canon_sound_ext. Qed.
 Print Assumptions C09_canonical_programs_agree_where_defined.
+
+(** ... and so are their directional derivatives: along every straight line [a + t e] of the shared environment that keeps the
+    zero-flagged inputs at zero, the derivative programs of AD.v ([tan_outs], the objects of C01_directional_derivative) of the two
+    members return the same number whenever both return a number — entropy, pressure and chemical potentials of a relabelled or
+    padded model are those of the original one, for every state (a derivative program that returns a number certifies that the
+    program is defined on a neighbourhood, where the two functions coincide by the previous theorem). *)
+Theorem C09_canonical_derivatives_agree : forall A B zs piA piB oa ob,
+  canon_eqb A B zs piA piB oa ob = true ->
+  forall a e : list R, length a = length zs -> length e = length zs ->
+  (forall j, (j < length zs)%nat -> nth j zs false = true -> nth j a 0%R = 0%R) ->
+  (forall j, (j < length zs)%nat -> nth j zs false = true -> nth j e 0%R = 0%R) ->
+  wscoped A (length piA) = true -> wscoped B (length piB) = true ->
+  (oa < length A + length piA)%nat -> (ob < length B + length piB)%nat ->
+  forall r da db : R,
+  nth 0 (eval_ext (tan_outs A (length piA) (oa :: nil)) (map Xreal (line_pt (sel 0%R piA a) (sel 0%R piA e) r ++ sel 0%R piA e))) Xnan = Xreal da ->
+  nth 0 (eval_ext (tan_outs B (length piB) (ob :: nil)) (map Xreal (line_pt (sel 0%R piB a) (sel 0%R piB e) r ++ sel 0%R piB e))) Xnan = Xreal db ->
+  da = db.
+Proof. exact canon_tangent_agree. Qed.
+Print Assumptions C09_canonical_derivatives_agree.
